@@ -74,7 +74,7 @@ def main():
             rc = c.returncode
         except subprocess.TimeoutExpired:
             out, rc = '', 'timeout'
-        kinds = [l.split('kind=')[1].split(' (')[0] for l in out.splitlines() if l.startswith('FAILURE')]
+        kinds = [l.split('kind=')[1].split(' (')[0] + (' [python -O pass]' if l.startswith('[python -O') else '') for l in out.splitlines() if 'FAILURE sub=' in l and 'kind=' in l]
         meta['check'] = {'cmd': './check %s %s' % (prop, tier), 'exit': rc, 'wall_s': round(time.time() - t0, 1),
                          'violations': sum(1 for l in out.splitlines() if l.startswith('VIOLATION')), 'failure_kinds': kinds[:6]}
         meta['caught_by'] = ('%s %s (%s)' % (prop, tier, ', '.join(kinds[:3]))) if rc == 1 else 'NOT CAUGHT by %s %s (exit %r)' % (prop, tier, rc)
